@@ -9,12 +9,19 @@ FM = "pysmt.formula.FormulaManager"
 PARSER = "pysmt.smtlib.parser.parser.SmtLibParser"
 
 EXPLANATION = (
-    "Static analysis: the traversal scratch state of DagWalker (work stack, one-shot memo) is "
-    "restored on exceptional exit of walk()/iter_walk() in DagWalker and every overrider (R1, CFG "
-    "with exceptional edges); the hash-consing table insertion and id advance do not precede the "
-    "type check on the miss path of create_node (R2); parser entry points start from a reset "
-    "binding cache or remove their bindings in a finally (R3).")
-NOT_DECIDED = ["traces inherent to the design (symbols declared by a failing script stay declared)"]
+    "Abstract interpretation with failures injected.  Walkers: every DagWalker subclass the package instantiates is "
+    "interpreted on shared skeletons with a failure injected at every handler call in turn; after the failure "
+    "another formula and then the same formula are walked on the same instance: results, handler calls and memo "
+    "must be those of a fresh walker (R1).  Manager: on the real, interpreted FormulaManager ~35 ill-sorted "
+    "applications (every operator family; failures raised by the type checker as PysmtTypeError and as other "
+    "exception types) are requested twice: each request raises, and the hash-consing table, the id counter, the "
+    "symbol table and the constant caches are exactly what they were before (R2).  Parser: after each rejected "
+    "script of a menu (undeclared symbol, ill-sorted term, malformed command, failure inside let / quantifier / "
+    "define-fun bodies) a later script is read - by the same parser object and by a new one on the same "
+    "environment - exactly as on a fresh environment (R4).")
+NOT_DECIDED = ["traces inherent to the design (symbols declared by a failing script stay declared)",
+               "failures injected elsewhere than at handler calls (e.g. inside the walker's own loop)",
+               "parse_model / get_assignment_list after a failed read (only get_script is interpreted after failures)"]
 
 
 REAL_KINDS = ("stmt", "test", "for", "with")     # not the pseudo nodes (except / finally entries carry the whole Try)
@@ -96,52 +103,9 @@ def run(ctx):
         ctx.floor(rs, 30)
 
     if ctx.want("R2"):
-        rs = ctx.rule("R2", "create_node registers the node only after its type check")
-        cls, fn = repo.method(FM, "create_node")
-        cfg = CFG(fn, may_raise=False)
-        is_store = lambda n: (n.kind == "stmt" and isinstance(n.ast, ast.Assign) and
-                              isinstance(n.ast.targets[0], ast.Subscript) and
-                              is_self_attr(n.ast.targets[0].value, "formulae"))
-        is_inc = lambda n: (n.kind == "stmt" and isinstance(n.ast, ast.AugAssign) and "_next_free_id" in norm(n.ast.target))
-        is_check = lambda n: n.ast is not None and n.kind == "stmt" and any(
-            attr_tail(c) in ("_do_type_check", "_do_type_check_real", "get_type") for c in calls_in(n.ast))
-        stores = [n for n in cfg.nodes if is_store(n)]
-        incs = [n for n in cfg.nodes if is_inc(n)]
-        if not stores:
-            ctx.error("R2", "no store into self.formulae in create_node")
-        for s in stores:
-            if cfg.dominated_by(s.id, is_check, follow=normal_only):
-                rs.ok({"store": norm(s.ast), "after": "type check"})
-            else:
-                # is there an undo on the exceptional path?
-                cfg2 = CFG(fn, may_raise=True)
-                undo = lambda n: n.ast is not None and n.kind == "stmt" and (
-                    ("del self.formulae[" in norm(n.ast)) or ("self.formulae.pop(" in norm(n.ast)))
-                chk2 = [n for n in cfg2.nodes if is_check(n) and s.ast.lineno <= n.ast.lineno]
-                undone = chk2 and all(cfg2.must_pass(c.id, cfg2.rse.id, undo) for c in chk2)
-                if undone:
-                    rs.ok({"store": norm(s.ast), "undone_on_failure": True})
-                else:
-                    ctx.finding(rs, "%s.create_node|store-before-check" % FM,
-                                "the node is inserted into the hash-consing table before its type check and is "
-                                "not removed when the check raises: the rejected (ill-typed) node stays registered",
-                                method_loc(repo, cls, s.ast))
-        for s in incs:
-            if cfg.dominated_by(s.id, is_check, follow=normal_only):
-                rs.ok({"id_advance": norm(s.ast), "after": "type check"})
-            else:
-                cfg2 = CFG(fn, may_raise=True)
-                undo = lambda n: n.ast is not None and n.kind == "stmt" and "_next_free_id -= 1" in norm(n.ast)
-                chk2 = [n for n in cfg2.nodes if is_check(n) and s.ast.lineno <= n.ast.lineno]
-                undone = chk2 and all(cfg2.must_pass(c.id, cfg2.rse.id, undo) for c in chk2)
-                if undone:
-                    rs.ok({"id_advance": norm(s.ast), "undone_on_failure": True})
-                else:
-                    ctx.finding(rs, "%s.create_node|id-before-check" % FM,
-                                "the id counter advances before the type check: every rejected construction "
-                                "shifts the ids of later nodes, which changes id-ordered results (sorted "
-                                "arguments in simplify, constant-array layout)", method_loc(repo, cls, s.ast))
-        ctx.floor(rs, 2)
+        rs = ctx.rule("R2", "real manager: a rejected construction leaves the tables and the id counter untouched and is rejected again")
+        from . import mgr_deep
+        mgr_deep.report(ctx, rs, mgr_deep.failure_results(), "pysmt/formula.py", 30)
 
     if ctx.want("R4"):
         rs = ctx.rule("R4", "a rejected script leaves no trace: a later script is read as in a fresh environment (same parser and new parser)")
@@ -154,38 +118,3 @@ def run(ctx):
             else:
                 rs.unrec("%s (%s): %s" % (name, how, detail[:160]))
         ctx.floor(rs, 16)
-
-    if ctx.want("R3"):
-        rs = ctx.rule("R3", "parser entry points reset or unwind their bindings")
-        for nm in ("get_script", "parse_model", "get_assignment_list"):
-            cls, f = repo.find_method(PARSER, nm)
-            if f is None:
-                rs.unrec("parser entry point %s not found" % nm)
-                continue
-            cfg = CFG(f)
-            reset = lambda n: n.ast is not None and n.kind == "stmt" and any(attr_tail(c) == "_reset" for c in calls_in(n.ast))
-            parses = [n for n in cfg.nodes if n.ast is not None and any(
-                attr_tail(c) in ("get_command_generator", "get_command", "get_expression") for c in calls_in(
-                    n.ast.iter if isinstance(n.ast, ast.For) else n.ast))]
-            binds = [c for c in calls_in(f) if attr_tail(c) in ("update", "bind") and "cache" in norm(c.func)]
-            if nm == "get_script":
-                if not parses:
-                    rs.unrec("get_script: no parsing call recognised")
-                elif all(cfg.dominated_by(p.id, reset, follow=normal_only) for p in parses):
-                    rs.ok({"entry": nm, "reset_before_parsing": True})
-                else:
-                    ctx.finding(rs, "%s.get_script|no-reset" % PARSER,
-                                "get_script parses without first resetting the binding cache: let/quantifier/"
-                                "definition bindings left by a script that failed half-way are visible to the "
-                                "next script", method_loc(repo, cls, f))
-            else:
-                # these bind only entries of environment-wide tables (declared symbols, custom type
-                # declarations): re-binding the same name to the same object is idempotent, so a
-                # leftover layer cannot change a later answer.  Checked: the bound map is such a table.
-                srcs = [norm(c.args[0]) for c in binds if c.args]
-                env_tables = all(("symbols" in x or "_custom_types_decl" in x) for x in srcs)
-                if env_tables:
-                    rs.ok({"entry": nm, "binds": srcs, "note": "environment tables only (idempotent)"})
-                else:
-                    rs.unrec("%s binds %s" % (nm, srcs))
-        ctx.floor(rs, 2)
